@@ -145,7 +145,8 @@ func (r *NodeManagement) provideDetailedDiscoveryDiffForFullNotify(message *api.
 	// seach for removed entites
 	for _, entity := range remoteDevice.Entities() {
 		address := entity.Address()
-		if !r.addressEntityListContainsAddressEntity(existingEntities, address.Entity) {
+		if !r.addressEntityListContainsAddressEntity(existingEntities, address.Entity) &&
+			!slices.Equal(address.Entity, DeviceInformationAddressEntity) {
 			// does not exists
 			removed := model.NetworkManagementStateChangeTypeRemoved
 			entityType := entity.EntityType()
